@@ -14,9 +14,9 @@
    dot-segment removal, query percent-encoding) and the driver validates it against the real
    functions on every generated URL.
 
-   The model follows the code AFTER the two repairs in /verif/fixes:
-     C09-query-order : encodeQuery re-encodes parameter by parameter (Query.v);
-     C09-base-choice : a scheme-less reference is always resolved against the whole parent.
+   The model follows the code AFTER the two repairs (patches kept in /verif/fixes):
+     /repo 8ac6930 (C09-query-order) : encodeQuery re-encodes parameter by parameter (Query.v);
+     /repo ce05a6f (C09-base-choice) : a scheme-less reference is always resolved against the whole parent.
    The code as found is kept as [reencode_orig] (Query.v) and [norm_state_orig] (below). *)
 From Coq Require Import List Ascii String NArith Bool.
 From ZenoV Require Import Lib.Hex Url.Escape Url.Query Url.RefUrl.
